@@ -747,6 +747,80 @@ val run_build_chunk : chunk_cfg -> (nat * n) list -> kv list
 
 val run_build_item : item_cfg -> (nat * n) list -> kv list
 
+type op =
+| OPad of n
+| ONtp of n
+| ORtp of n
+| OPc of n
+| OOc of n
+| ORb of rb_cfg
+| OSubtype of n
+| OData of bytes
+| OSrc of n
+| OReason of bytes
+| OReasonOwned of bytes
+| OChunk of chunk_cfg
+| OCount of n
+| OSender of n
+| OMedia of n
+
+type item_op =
+| IPrefix of bytes
+| IIntoOwned
+
+type item_hist = { ih_type : n; ih_value : bytes; ih_ops : item_op list;
+                   ih_add_owned : bool }
+
+type chunk_hist = { chh_ssrc : n; chh_items : item_hist list }
+
+val item_apply : item_cfg -> item_op -> item_cfg
+
+val item_of_hist : item_hist -> item_cfg
+
+val chunk_of_hist : chunk_hist -> chunk_cfg
+
+type rpsi_op =
+| RPt of n
+| RData of bytes * n
+| RDataOwned of bytes * n
+
+type rpsi_st = { rp_pt : n; rp_bits : bytes; rp_ov : n }
+
+val rpsi_apply : rpsi_st -> rpsi_op -> rpsi_st
+
+type fci_hist =
+| FHNack of n list
+| FHFir of (n * n) list
+| FHSli of ((n * n) * n) list
+| FHRpsi of rpsi_op list
+| FHPli
+
+val fci_of_hist : fci_hist -> fci_cfg
+
+val apply_op : member -> op -> member
+
+type wrap =
+| WDirect
+| WPacketBuilder
+| WCompound
+
+type hist_init =
+| HSr of n
+| HRr of n
+| HApp of n * bytes
+| HBye
+| HSdes
+| HUnk of n * bytes
+| HFb of fb_kind * fci_hist
+
+val init_member : hist_init -> member
+
+type hist = { h_init : hist_init; h_ops : op list; h_wrap : wrap }
+
+val member_of_hist : hist -> member
+
+val run_hist : hist -> kv list
+
 val rfc_header : n -> n -> n -> nat -> bytes
 
 val rfc_trailer : n -> bytes
